@@ -172,7 +172,8 @@ def check_case(case):
         return r
     # shell bounds 5e-9 (relative) away from a lattice-point value - the closest the property's quantifier allows: the family at
     # u must be IN for sintlmin = u(1-5e-9) and OUT for u(1+5e-9); the family at v OUT for sintlmax = v(1-5e-9) and IN for v(1+5e-9)
-    vals = np.unique(np.round(orc.s[~orc.ext], 10))
+    hint = max(s_[1] for s_ in shells)  # the oracle's index box is complete up to this value only: tight limits are chosen below it
+    vals = np.unique(np.round(orc.s[(~orc.ext) & (orc.s <= 0.999 * hint)], 10))
     if len(vals) > 8:
         u, v = float(vals[len(vals) // 8]), float(vals[len(vals) // 3])
         for smin, smax in ((u * (1 - 5e-9), v * (1 - 5e-9)), (u * (1 + 5e-9), v * (1 + 5e-9))):
